@@ -8,7 +8,7 @@ ALL = ["C%02d" % i for i in range(1, 21)]
 
 CLAIMED = {
     "C11": dict(
-        text="Coq theorems: a teardown invariant (held qubits of a node = |qubitList|, handles live) holds over every application history; StopApp completes and answers Done on error-free applications and leaves no held qubit of the application, for any number of application generations (`C11_stop_restores`); the network a host drives is a reachable Model-V state and, once every application is stopped, NO node holds a qubit, simulates a qubit or keeps a register (`C11_stop_leaves_nothing`, via 'registers are never empty at a quiescent point'); halves handed to the peer survive the creator's stop; `_refuted` witness for a pair creation that fails after its two temporaries exist (known finding). The closed-world theorems cover one host without entanglement generation; applications with pair halves are covered by the count oracle and the dump correspondence. Tie: applications with allocations, frees, pair halves and deliberately failing subroutines at capacities 1..3 over >= 3 generations through the real handler; on 2-3 nodes: generations of create-and-keep requests, gates between the halves a node holds (repeater: both simulated elsewhere), measurements, frees and stops in any order, after which every node's (held, simulated, registers, register counter) must be (0, 0, 0, 0) and a stop must not change what other nodes hold.",
+        text="Coq theorems: a teardown invariant (held qubits of a node = |qubitList|, handles live) holds over every application history; StopApp completes and answers Done on error-free applications and leaves no held qubit of the application, for any number of application generations (`C11_stop_restores`); the network a host drives is a reachable Model-V state and, once every application is stopped, NO node holds a qubit, simulates a qubit or keeps a register (`C11_stop_leaves_nothing`, via 'registers are never empty at a quiescent point'); halves handed to the peer survive the creator's stop; `_refuted` witness for a pair creation that fails after its two temporaries exist (known finding). Several hosts with pair creation (Qasm/TeardownNet.v): over one shared Model-V network with one host per node, for every history of instructions, successful pair creations (cmd_epr_keep + delivery) and polls that is `clean` (no creation refused after a temporary exists = the known finding, no binding to an occupied address, no re-initialised application id), the global invariant holds, held(j) = |qubit list of j| + |unclaimed halves at j|, nothing host i executes (in particular a stop) changes what another node holds (C11_stop_keeps_peer_halves), and once every host has stopped and no half is unclaimed NO node holds, simulates or registers anything (C11_net_stop_leaves_nothing; C11_unclaimed_half_stays shows the hypothesis is needed). The N-host glue (address mapping, receive deques) has no correspondence of its own; the multi-node oracle of the check exercises the same histories on the real handlers. Tie: applications with allocations, frees, pair halves and deliberately failing subroutines at capacities 1..3 over >= 3 generations through the real handler; on 2-3 nodes: generations of create-and-keep requests, gates between the halves a node holds (repeater: both simulated elsewhere), measurements, frees and stops in any order, after which every node's (held, simulated, registers, register counter) must be (0, 0, 0, 0) and a stop must not change what other nodes hold.",
         design="9.5/C11 (notes/C11.md)",
         note="Trusted: as C09. Known findings: C11:epr-temporaries (D16 ii), C11:appid-reuse (application id cannot be reused after StopApp; root cause in netqasm's SharedMemoryManager).",
         technique="Coq proof (teardown invariant over application histories, refutation witness) + vm_compute correspondence + count oracle"),
@@ -35,7 +35,7 @@ CLAIMED = {
         note="Trusted: Coq kernel; in-process harness (direct wiring / real PB in memory, virtual clock, scripted coin); sequential semantics (quiescent points only); tableau shape facts are not part of this invariant.",
         technique="Coq proof (inductive invariant preserved by every case of every operation, induction over operation lists) + vm_compute correspondence + object-graph oracle"),
     "C03": dict(
-        text="PARTIAL. Coq theorems over Model L (labelled transition system at the granularity of the code's yield points: lock request, poller acquisition, remote delivery, timer expiry, release): ownership invariant, mutual exclusion for lock-disciplined (two-phase) runs, a held lock is held by its owner and released only by it; `C03_serializable_refuted`/`C03_foreign_release`: the _lock_nodes timeout path releases a lock owned by another operation (recorded 14-event trace of the real code, known finding D6). Not proved: data-level two-phase serializability (Model L carries no bookkeeping; statement kept in Conc/Serial.v). Tie: every lock-event trace recorded from the real code under a seeded scheduler over the real Perspective Broker (~900 schedules quick) must be accepted event by event by the LTS (vm_compute), completed operations and held locks must agree; oracle: results, final dump and joint state equal those of SOME sequential order respecting each client's order.",
+        text="PARTIAL. Coq theorems over Model L (labelled transition system at the granularity of the code's yield points: lock request, poller acquisition, remote delivery, timer expiry, release): ownership invariant, mutual exclusion for lock-disciplined (two-phase) runs, a held lock is held by its owner and released only by it; `C03_serializable_refuted`/`C03_foreign_release`: the _lock_nodes timeout path releases a lock owned by another operation (recorded 14-event trace of the real code, known finding D6). Data level, proved GENERICALLY (Conc/TwoPhase.v): for abstract node data, per-operation local state and any deterministic access function, a legal, covered, two-phase schedule ends with the store and every operation's local state of the SERIAL schedule in lock-point order, that order respects real-time precedence, and each hypothesis is needed (refutation examples); every accepted Model-L run of a lock-disciplined configuration is a legal two-phase lock schedule, so any covered placement of accesses inside a recorded trace is serializable in the order computed from the trace alone (C03_disciplined_runs_serializable). Not proved and not checked by the tie: that virtual.py's operations ARE such access sequences (coverage of each node's bookkeeping footprint by its node lock); it is an assumption, known to fail for the `active` test (D23) and for the removal of a measured qubit at the holding node, where runs stay serializable in another order (counters lockpoint_order_matches / other_order_matches). Tie: every lock-event trace recorded from the real code under a seeded scheduler over the real Perspective Broker (~900 schedules quick) must be accepted event by event by the LTS (vm_compute), completed operations and held locks must agree; Coq's sched_report on the recorded lock schedules (legal, two-phase, lock order) must equal the harness's; oracle: results, final dump and joint state equal those of SOME sequential order respecting each client's order.",
         design="9.5/C03 (notes/C03.md)",
         note="Trusted: Coq kernel; scheduler harness (iosim pumps, virtual clock, seeded back-off / timer ties / host order, lock taps by wrapping methods from outside); qubit-level locks are judged by the Python oracle only. Known findings: D6 (_lock_nodes timeout with pending request), D23 (shared handle consumed by a concurrent operation).",
         technique="Coq proof (invariants of an LTS, refutation traces) + trace acceptance by vm_compute + serializability oracle over explored schedules"),
@@ -61,9 +61,9 @@ CLAIMED = {
         note="Trusted: as C05. Concurrent arrivals for the last slot are covered by the PB schedules of C03 when present, not by this sequential model.",
         technique="Coq proof (capacity invariant over fold_left step + iff decision theorems) + vm_compute correspondence"),
     "C08": dict(
-        text="Coq theorems over the EPR layer model: for every n and EVERY interleaving of creator steps and receiver polls both sides obtain exactly n results whose i-th entries carry equal sequence numbers, opposite directionality, each other's node id and the local socket as purpose id, FIFO per socket; sequence numbers are unique per direction; `C08_seq_unique_refuted`: pairs created in opposite directions on one socket pair collide (known finding D15); after the creator's four native operations the pair register is exactly [XX; ZZ] (stabilizer model, vm_compute); measure-directly outcome table for all 3x3 bases x coins consistent with |Phi+>. Tie: two/three real SubroutineHandlers on the in-process network driven through netqasm.sdk under a seeded scheduler (25% over real PB); measure-directly requests carry random 8-bit basis-choice weights per side (written into the request array, which the SDK leaves at 0), nodes give up earlier halves between requests; ReturnArray contents on both hosts, reported bases within the requested sets, joint state of the delivered qubits (numpy), FIFO/sequence model compared in Coq.",
+        text="Coq theorems over the EPR layer model: for every n and EVERY interleaving of creator steps and receiver polls both sides obtain exactly n results whose i-th entries carry equal sequence numbers, opposite directionality, each other's node id and the local socket as purpose id, FIFO per socket; the same for the KEYED model with any number of sockets, node pairs and directions in one event list: FIFO per receiving queue, and per directed key received ++ queued = created in order with sequence numbers start, start+1, ... and the i-th received record = the i-th created one (C08_keyed_pairing; C08_shared_queue_unfiltered_refuted shows what fails when two creators share one receiving socket, C08_keyed_pairing_sole the unfiltered statement for a sole creator); sequence numbers are unique per direction; `C08_seq_unique_refuted`: pairs created in opposite directions on one socket pair collide (known finding D15); after the creator's four native operations the pair register is exactly [XX; ZZ] (stabilizer model, vm_compute); measure-directly outcome table for all 3x3 bases x coins consistent with |Phi+>. Tie: two/three real SubroutineHandlers on the in-process network driven through netqasm.sdk under a seeded scheduler (25% over real PB); measure-directly requests carry random 8-bit basis-choice weights per side (written into the request array, which the SDK leaves at 0), nodes give up earlier halves between requests; ReturnArray contents on both hosts, reported bases within the requested sets, joint state of the delivered qubits (numpy), FIFO/sequence model compared in Coq.",
         design="9.5/C08 (notes/C08.md)",
-        note="Trusted: Coq kernel; netqasm SDK/message layer (library code); the keyed (multi-socket) model is tied by correspondence, the pairing theorem is proved for one direction and lifted by the per-key independence argument stated in the notes (not proved).",
+        note="Trusted: Coq kernel; netqasm SDK/message layer (library code); the keyed (multi-socket, multi-node, both directions) model is tied by correspondence and the pairing theorem is proved for it directly (Qasm/EprKeyed.v); the item record carries no directionality flag (checked by the oracle only).",
         technique="Coq proof (LTS over all interleavings, finite tables by vm_compute, refutation witness) + vm_compute correspondence with real NetQASM handlers"),
     "C09": dict(
         text="Coq theorems over Model N (NetQASM executor on top of Model V): the address chain virtual address -> physical id -> handle is a partial injection preserved by every instruction incl. failing ones; a re-allocated address denotes a fresh qubit; each quantum instruction issues the native operation of the (translated) instruction table on the handle its address denotes, control first; instructions the backend cannot simulate and instructions on unmapped/identical operands are refused with the state unchanged. The instruction table is regenerated from executioner.py on every run and proved equal to the model's. Classical instruction semantics is netqasm library code: compared with an independent Python reference interpreter. Tie: random well-formed subroutines through the real SubroutineHandler; returned messages and node dump after every subroutine.",
